@@ -232,9 +232,29 @@ type Trace struct {
 	Leaked                         []string // goroutines with library frames left after teardown
 	UnstoppedWatch                 int      // watchers the library never stopped
 	StallsHit                      int      // stalls of the plan that took place (Plan.Stalls)
+	StallRecs                      []*StallRec // when and where they took place
 	UnstoppedWatchObjs             []int    // ... and the election objects that had opened them
 	Panics                         []string // panics recovered inside harness callbacks (none expected)
 	HarnessErr                     string
 	HammerCalls                    int
 	ExcludedRestartAfterFailedStop int
+}
+
+// StallRec: a library goroutine of instance Inst was held at scheduling point Point from FromT to ToT (-1:
+// until the end of the run).
+type StallRec struct {
+	Inst  int
+	Point string
+	FromT time.Duration
+	ToT   time.Duration
+}
+
+// StalledAt reports whether a goroutine of the instance was being held at the given point at time t.
+func (tr *Trace) StalledAt(inst int, point string, t time.Duration) bool {
+	for _, r := range tr.StallRecs {
+		if r.Inst == inst && r.Point == point && r.FromT <= t && (r.ToT < 0 || t <= r.ToT) {
+			return true
+		}
+	}
+	return false
 }
